@@ -150,15 +150,16 @@ class World:
                 v.name = f"init_{next(name_ctr)}_{ti}"
                 vals.append(v)
             values_per_graph.append(vals)
-        sub_nodes = []
+        parents = case.get("graph_parents") or [None] + [0] * (len(graphs_spec) - 1)
+        main = ir.Graph(inputs=[], outputs=[], nodes=[], initializers=values_per_graph[0], name="main", opset_imports={"": 20})
+        graph_objs = [main]
         for g_i in range(1, len(graphs_spec)):
             vals = values_per_graph[g_i]
             sub = ir.Graph(inputs=[], outputs=[], nodes=[], initializers=vals, name=f"sub{g_i}")
-            cond = ir.Value(name=f"cond{g_i}")
             n = ir.Node("", "If", inputs=[], attributes=[ir.AttrGraph("then_branch", sub)], num_outputs=1, name=f"if{g_i}")
-            _ = cond
-            sub_nodes.append(n)
-        main = ir.Graph(inputs=[], outputs=[], nodes=sub_nodes, initializers=values_per_graph[0], name="main", opset_imports={"": 20})
+            # a subgraph hangs off the main graph or off an earlier subgraph (nesting of any depth)
+            graph_objs[parents[g_i]].append(n)
+            graph_objs.append(sub)
         model = ir.Model(main, ir_version=10)
         all_vals = [v for vals in values_per_graph for v in vals]
         return model, all_vals
@@ -166,12 +167,20 @@ class World:
 
 def make_sched(case: dict, streams: Streams, on_yield=None) -> Scheduler:
     sim = case.get("sim", {})
+    # the step cap is a liveness bound relative to the work: every copied chunk of an external tensor is a step
+    total = 0
+    for spec in case.get("tensors", []):
+        try:
+            total += tensors.nbytes_of(spec["dtype"], spec["n"])
+        except Exception:  # noqa: BLE001
+            pass
+    step_cap = 100_000 + 16 * (total // max(1, sim.get("chunk") or 4096))
     sched = Scheduler(
         streams.rng("schedule"),
         choices=case.get("schedule"),
         choices_only=case.get("schedule") is not None,
         stickiness=sim.get("stickiness", 0.0),
-        max_steps=sim.get("max_steps", 100_000),
+        max_steps=sim.get("max_steps", step_cap),
         on_yield=on_yield,
     )
     simthreading.install_sched_extras(sched, spurious_rate=sim.get("spurious", 0.0), rng_faults=streams.rng("faults"))
